@@ -23,6 +23,7 @@
 import TypedpyModel.Lemmas.DeserErr
 import TypedpyModel.Lemmas.LiftEquiv
 import TypedpyModel.Lemmas.RoundTripX
+import TypedpyModel.Sem.Decimal
 namespace Typedpy.C06
 open Typedpy
 
@@ -379,7 +380,7 @@ theorem enumVal_result_is_member (XO : XOracles) (opts : DeserOpts) (cls : Strin
 theorem decimal_deser_exact (XO : XOracles) (opts : DeserOpts) (o : NumOpts) (d : PyVal) :
     bindE (deserX XO opts false (.decimal o) d) (validateX XO (.decimal o)) = validateX XO (.decimal o) d := by
   simp only [deserX, Bool.and_false, Bool.false_eq_true, if_false, validateX, dDecimal, sxDecimal]
-  cases hc : xConvDecimal d with
+  cases hc : xConvDecimal XO d with
   | error e => simp
   | ok q => simp [xConvDecimal, PyVal.asNum]
 
@@ -401,6 +402,64 @@ theorem temporal_deser_exact (XO : XOracles) (opts : DeserOpts) (ty fmt : String
     simp only [vTemporal, dTemporal]
     split <;> simp
   | _ => first | (rename_i t; exact absurd rfl (hd t)) | simp [vTemporal, dTemporal]
+
+/-- **C06, formatted strings** (DateString, IPV4, HostName): the deserializer checks the type only, the
+    constructor the type and the format: deserialize-then-construct IS construct -/
+theorem fmtStr_deser_exact (XO : XOracles) (opts : DeserOpts) (kind : String) (d : PyVal) :
+    bindE (deserX XO opts false (.fmtStr kind true) d) (validateX XO (.fmtStr kind true))
+      = validateX XO (.fmtStr kind true) d := by
+  simp only [deserX, Bool.and_false, Bool.false_eq_true, if_false, validateX]
+  cases d <;> simp [dFmtStr, vFmtStr]
+
+/-- **C06, Enum by name over a mixin enum class** (the documented JSON form of a member is its name, which the
+    constructor accepts and converts): deserialize-then-construct IS construct, for every document value -/
+theorem enumName_deser_exact (XO : XOracles) (opts : DeserOpts) (cls : String) (ms : List (String × PyVal))
+    (mx : Bool) (d : PyVal) :
+    bindE (deserX XO opts false (.enumName cls ms mx) d) (validateX XO (.enumName cls ms mx))
+      = validateX XO (.enumName cls ms mx) d := by
+  simp only [deserX, Bool.and_false, Bool.false_eq_true, if_false, validateX]
+  cases d with
+  | str n =>
+    simp only [dEnumName, vEnumVal]
+    cases hc : (ms.map (·.1)).contains n with
+    | true => simp only [if_true, bindE_ok, vEnumVal, hc, beq_self_eq_true, Bool.and_self]
+    | false => simp
+  | _ => simp only [dEnumName]; exact dValidated_same (vEnumVal cls ms mx) _
+
+/-- **one DecimalNumber, two models**: wherever the extension model (Sem/SerdeX.lean, used for C05/C06) does not
+    answer "not modelled" (a NaN / Infinity string, a (sign, digits, exponent) sequence), its constructor
+    `sxDecimal` is the constructor model of C01/C02 (`Typedpy.vDecimal`, Sem/Decimal.lean), with that model's string
+    parser read off this model's oracle: the two properties talk about the same DecimalNumber -/
+theorem decimal_models_agree (XO : XOracles) (o : NumOpts) (v : PyVal)
+    (h : ∀ e, sxDecimal XO o v = .error e → xOutside e = false) :
+    sxDecimal XO o v = Typedpy.vDecimal (fun s => (XO.decOfStr s).bind id) o v := by
+  cases v with
+  | str s =>
+    cases hd : XO.decOfStr s with
+    | none =>
+      have := h (.other "outside-model:decimal-str") (by simp [sxDecimal, xConvDecimal, hd])
+      simp [xOutside] at this
+    | some r =>
+      cases r with
+      | none => simp [sxDecimal, xConvDecimal, hd, Typedpy.vDecimal, toDecimal, decValue, decErr]
+      | some q =>
+        simp [sxDecimal, xConvDecimal, hd, Typedpy.vDecimal, toDecimal, decValue, vNumber, PyVal.asNum]
+  | list xs =>
+    have := h (.other "outside-model:decimal-seq") (by simp [sxDecimal, xConvDecimal])
+    simp [xOutside] at this
+  | tuple xs =>
+    have := h (.other "outside-model:decimal-seq") (by simp [sxDecimal, xConvDecimal])
+    simp [xOutside] at this
+  | bool b =>
+    simp [sxDecimal, xConvDecimal, Typedpy.vDecimal, toDecimal, decValue, vNumber, PyVal.asNum]
+  | int i =>
+    simp [sxDecimal, xConvDecimal, Typedpy.vDecimal, toDecimal, decValue, vNumber, PyVal.asNum]
+  | float q =>
+    simp [sxDecimal, xConvDecimal, Typedpy.vDecimal, toDecimal, decValue, vNumber, PyVal.asNum]
+  | dec q =>
+    simp [sxDecimal, xConvDecimal, Typedpy.vDecimal, toDecimal, decValue, vNumber, PyVal.asNum]
+  | _ => simp [sxDecimal, xConvDecimal, Typedpy.vDecimal, toDecimal, decValue, decErr, PyVal.asNum]
+
 
 def exXO : XOracles :=
   { base := exO, toFloat := fun q => q,
